@@ -260,6 +260,9 @@ class Tree:
                 self.fs.writebytes(p, child)
 
     def listdir(self, path):
+        # the listing order the property speaks of is the operating system's, not what the library's adapter makes of it
+        if self.kind == "native":
+            return list(os.listdir(path))
         return list(self.fs.listdir(path))
 
     def isdir(self, path):
